@@ -231,7 +231,8 @@ def harness_build():
         import shutil
         shutil.copy(src, lock)
     toml = os.path.join(HARNESS, "Cargo.toml")
-    if REPO != "/repo":  # private working copy pointing at a scratch worktree of the repository
+    if True:  # always point the path dependencies at the repository this run checks (a private working copy may
+        # point at a scratch clone; a merged Cargo.toml must never keep such a path)
         t = open(toml).read()
         t2 = re.sub(r'path = "[^"]*/(h3[a-z-]*)"', lambda m: 'path = "%s/%s"' % (REPO, m.group(1)), t)
         if t2 != t:
